@@ -43,7 +43,7 @@ def digest(x):
             hb.update(k.encode())
             hb.update(numpy.asarray(bufs[k]).tobytes())
         return "|".join([type(x).__name__, str(ak.type(x)), form.to_json(), str(length), hb.hexdigest()[:20],
-                         "behavior:" + ("none" if x.behavior is None else str(len(x.behavior)))])
+                         "behavior:" + ("none" if x.behavior is None else _h(repr(sorted(repr(k) for k in x.behavior.keys())).encode()) + f":{len(x.behavior)}")])
     if isinstance(x, numpy.dtype):
         return "dtype|" + repr(x.descr) + repr(x.names)
     if isinstance(x, dict):
@@ -126,6 +126,17 @@ def extra_calls():
         add("vector.zip", mk_akcols, lambda A, B: vector.zip(A), "akarr")
         add("vector.Array-of-records", lambda names=names: ([{n: 1.0 + i for i, n in enumerate(names)}], None),
             lambda A, B: vector.Array(A), "akarr")
+        # Awkward inputs that already carry a behavior mapping: the caller's own dict, and the global registry
+        def mk_ak_userbehavior(names=names):
+            return ak.Array([{n: 1.0 + i for i, n in enumerate(names)}], behavior={"user-key": 1}), None
+        def mk_ak_globalbehavior(names=names):
+            return ak.Array([{n: 1.0 + i for i, n in enumerate(names)}], behavior=ak.behavior), None
+        def mk_akcols_userbehavior(names=names):
+            return {n: ak.Array([1.0 + i, 2.0 + i], behavior={"user-key": 1}) for i, n in enumerate(names)}, None
+        add("vector.Array-of-ak-with-user-behavior", mk_ak_userbehavior, lambda A, B: vector.Array(A), "akarr")
+        add("vector.Array-of-ak-with-global-behavior", mk_ak_globalbehavior, lambda A, B: vector.Array(A), "akarr")
+        add("vector.zip-of-ak-with-user-behavior", mk_akcols_userbehavior, lambda A, B: vector.zip(A), "akarr")
+        add("vector.Array-with_name", mk_ak_userbehavior, lambda A, B: vector.Array(ak.with_name(A, "Momentum4D" if len(names) == 4 else "Vector2D")), "akarr")
     return items
 
 
